@@ -165,7 +165,58 @@ def histories(max_len):
 
 
 def fresh(cfg):
-    return physics.manager(cfg["method"], pipe=cfg["pipe"], flow=cfg.get("flow", "borehole"), load=cfg.get("load", "office"), months=24, do_set_design=False)
+    kw = {}
+    for k in ("borehole", "soil", "grout"):
+        if cfg.get(k):
+            kw[k] = tuple(cfg[k])
+    for k in ("max_eft", "min_eft"):
+        if cfg.get(k) is not None:
+            kw[k] = cfg[k]
+    return physics.manager(cfg["method"], pipe=cfg["pipe"], flow=cfg.get("flow", "borehole"), load=cfg.get("load", "office"), months=cfg.get("months", 24), do_set_design=False, **kw)
+
+
+# inputs changed between two designs on ONE manager (a parameter study): name -> (override of the configuration, setter call)
+CHANGES = {
+    "borehole": ({"borehole": [96.0, 4.0, 0.110]}, lambda m: m.set_borehole(height=96.0, buried_depth=4.0, diameter=0.110)),
+    "soil": ({"soil": [3.1, 2100000.0, 15.5]}, lambda m: m.set_soil(conductivity=3.1, rho_cp=2100000.0, undisturbed_temp=15.5)),
+    "grout": ({"grout": [2.2, 3500000.0]}, lambda m: m.set_grout(conductivity=2.2, rho_cp=3500000.0)),
+    "loads": ({"load": "balanced"}, lambda m: m.set_ground_loads_from_hourly_list(list(physics.loads("balanced")))),
+    "limits": ({"max_eft": 32.0, "min_eft": 6.5}, lambda m: m.set_simulation_parameters(num_months=24, max_eft=32.0, min_eft=6.5, max_height=135.0, min_height=60.0)),
+    "horizon": ({"months": 36}, lambda m: m.set_simulation_parameters(num_months=36, max_eft=35.0, min_eft=5.0, max_height=135.0, min_height=60.0)),
+}
+
+
+def run_study(case, res):
+    """one manager: design, change one input through its setter, design again; the second design is bit for bit the design a brand-new
+    interpreter finds for the final configuration"""
+    cfg, what = case["cfg"], case["change"]
+    override, setter = CHANGES[what]
+    final = dict(cfg, **override)
+    ref = case.get("ref") or reference_in_fresh_process(final)
+    res["ref"] = ref
+    m = fresh(cfg)
+    set_design(m, cfg)
+    if case.get("first_run", True):
+        res["evals"] += 1
+        physics.find(m)
+    setter(m)
+    set_design(m, cfg)
+    res["evals"] += 1
+    e = physics.find(m)
+    if e is not None:
+        res["violations"].append(core.viol("design_failed_after_history", case, msg=f"{cfg['method']}/{cfg['pipe']}: after changing {what} on a used manager find_design raised {type(e).__name__}: {e}", action=what))
+    else:
+        sig = full_signature(m)
+        if sig != ref:
+            diff = [key for key in ref if sig.get(key) != ref[key]]
+            res["violations"].append(core.viol("design_depends_on_history", case, observed={k2: sig[k2] for k2 in ("nbh", "H", "max_eft", "min_eft")},
+                                               expected={k2: ref[k2] for k2 in ("nbh", "H", "max_eft", "min_eft")},
+                                               msg=f"{cfg['method']}/{cfg['pipe']}: design, change {what}, design again on one manager: the second design differs from a fresh manager's with the final inputs in {diff} "
+                                                   f"(H {float.fromhex(sig['H'])} vs {float.fromhex(ref['H'])}, nbh {sig['nbh']} vs {ref['nbh']})",
+                                               differs_in=diff[0] if diff else "?", preceded_by=[what]))
+    res.outcome("input_change_studies")
+    res["nontrivial"] += 1
+    res["sample"] = {k: v for k, v in case.items() if k != "ref"}
 
 
 def set_design(m, cfg):
@@ -348,6 +399,8 @@ def run_case(case):
         run_config_bfs(case, res)
     elif fam == "designs":
         run_designs(case, res)
+    elif fam == "study":
+        run_study(case, res)
     elif fam == "objects":
         run_objects(case, res)
     return res
@@ -381,8 +434,11 @@ def main(run: core.Run, only=None):
     cases = []
     for cfg in dcfgs:
         for h in hs:
-            cases.append({"family": "designs", "cfg": cfg, "histories": [h], "ref": refs0[core.canon(cfg)]})
+            cases.append({"family": "designs", "cfg": cfg, "histories": [h], "ref": refs0.get(core.canon(cfg))})
     results = run.drive(cases, family="designs", fresh_process=True)
+    studies = [{"family": "study", "cfg": cfg, "change": ch, "first_run": fr} for cfg in (dcfgs[:1] if quick else dcfgs[:3])
+               for ch in (("borehole", "soil", "loads", "limits") if quick else tuple(CHANGES)) for fr in ((True,) if quick else (True, False))]
+    run.drive(studies, family="input-change-studies", fresh_process=True, chunksize=1)
     # the reference signature must be the same in every process that computed it
     refs = {}
     for c, r in zip(cases, results):
@@ -402,5 +458,5 @@ def main(run: core.Run, only=None):
                      "reads (API contract); set_pipe_type is given the type the pipe setter implies",
                      "time stamps and run time are removed from the output files before comparison"],
         traces_validated=len(cases),
-        require_outcomes=("config_bfs", "object_histories", "design_histories"),
+        require_outcomes=("input_change_studies", "config_bfs", "object_histories", "design_histories"),
     )
